@@ -84,6 +84,19 @@ static int h_main(int argc, char **argv) {
         in = fopen(argv[1], "r");
         if (!in) { perror(argv[1]); return 2; }
     }
+    {
+        /* slurp the input: a child leaving through exit() (configuration error paths of the proxy) would
+           otherwise flush the shared input stream and move the parent's file offset */
+        size_t len = 0, capb = 1 << 20, r;
+        char *all = malloc(capb);
+        while ((r = fread(all + len, 1, capb - len, in)) > 0) {
+            len += r;
+            if (len == capb) all = realloc(all, capb *= 2);
+        }
+        if (in != stdin) fclose(in);
+        in = fmemopen(all, len ? len : 1, "r");
+        if (!len) all[0] = '\n';
+    }
     setvbuf(stdout, NULL, _IOFBF, 1 << 16);
     while (fgets(h_linebuf, sizeof(h_linebuf), in)) {
         size_t l = strlen(h_linebuf);
